@@ -302,23 +302,31 @@ class Channel:
             return spec.Basic.Ack(delivery_tag=0)
         return spec.Basic.Return(reply_code=312, reply_text="NO_ROUTE", exchange=exchange, routing_key=routing_key)
 
-    async def basic_ack(self, delivery_tag: int, multiple: bool = False, wait: bool = True) -> None:
-        if multiple:
-            raise NotImplementedError
+    def _upto(self, delivery_tag: int, multiple: bool) -> list[int]:
+        """The delivery tags a settlement covers: with `multiple` every outstanding delivery of the *channel* up to and including the
+        tag (whichever consumer of the channel it went to); tag 0 with `multiple` means all of them."""
+        if not multiple:
+            return [delivery_tag] if self._settle(delivery_tag) else []
+        if delivery_tag != 0 and not self._settle(delivery_tag):
+            return []
+        return sorted(t for t in self.unacked if delivery_tag == 0 or t <= delivery_tag)
 
+    async def basic_ack(self, delivery_tag: int, multiple: bool = False, wait: bool = True) -> None:
         def effect() -> None:
-            if self._settle(delivery_tag):
-                self.unacked.pop(delivery_tag, None)
-                self.s.kick()
+            for t in self._upto(delivery_tag, multiple):
+                self.unacked.pop(t, None)
+            self.s.kick()
 
         await self._send(effect)
         self.ncalls += 1
         await asyncio.sleep(0)  # (the write drains)
 
     async def basic_nack(self, delivery_tag: int, multiple: bool = False, requeue: bool = True, wait: bool = True) -> None:
-        if multiple:
-            raise NotImplementedError
-        await self._send(lambda: self._settle(delivery_tag) and self._back(delivery_tag, requeue))
+        def effect() -> None:
+            for t in self._upto(delivery_tag, multiple):
+                self._back(t, requeue)
+
+        await self._send(effect)
         self.ncalls += 1
         await asyncio.sleep(0)
 
